@@ -440,3 +440,90 @@ func OnlyWhenPathTrue(suffix string) func(b *ssa.BasicBlock, succ int) bool {
 		return condTrue == sense
 	}
 }
+
+// ControlConds returns the branch conditions on which the execution of block b is (transitively)
+// control dependent: for every branch edge X->Y such that b post-dominates Y but not X (Ferrante et
+// al.), the condition of X with the sense of the edge; closed transitively over the branches' own
+// dependences. Unlike CondsAt this also sees else-branches of compound (&&, ||) conditions.
+func ControlConds(b *ssa.BasicBlock) []Cond {
+	f := b.Parent()
+	n := len(f.Blocks)
+	// post-dominator sets, with a virtual exit (index n)
+	pdom := make([][]bool, n+1)
+	for i := range pdom {
+		pdom[i] = make([]bool, n+1)
+		for j := range pdom[i] {
+			pdom[i][j] = true
+		}
+	}
+	for j := range pdom[n] {
+		pdom[n][j] = j == n
+	}
+	succs := func(i int) []int {
+		blk := f.Blocks[i]
+		if len(blk.Succs) == 0 {
+			return []int{n}
+		}
+		var out []int
+		for _, s := range blk.Succs {
+			out = append(out, s.Index)
+		}
+		return out
+	}
+	for changed := true; changed; {
+		changed = false
+		for i := n - 1; i >= 0; i-- {
+			nw := make([]bool, n+1)
+			first := true
+			for _, s := range succs(i) {
+				if first {
+					copy(nw, pdom[s])
+					first = false
+				} else {
+					for j := range nw {
+						nw[j] = nw[j] && pdom[s][j]
+					}
+				}
+			}
+			nw[i] = true
+			for j := range nw {
+				if nw[j] != pdom[i][j] {
+					changed = true
+				}
+			}
+			pdom[i] = nw
+		}
+	}
+	var out []Cond
+	seenBlk := map[int]bool{}
+	var visit func(bi int)
+	visit = func(bi int) {
+		if seenBlk[bi] {
+			return
+		}
+		seenBlk[bi] = true
+		for xi, x := range f.Blocks {
+			ifi, ok := x.Instrs[len(x.Instrs)-1].(*ssa.If)
+			if !ok || len(x.Succs) != 2 {
+				continue
+			}
+			for si, y := range x.Succs {
+				if pdom[y.Index][bi] && !(pdom[xi][bi] && xi != bi) {
+					v, sense := ifi.Cond, si == 0
+					for {
+						u, ok := v.(*ssa.UnOp)
+						if ok && u.Op == token.NOT {
+							v, sense = u.X, !sense
+							continue
+						}
+						break
+					}
+					out = append(out, Cond{If: ifi, Value: v, Sense: sense})
+					visit(xi)
+				}
+			}
+		}
+	}
+	visit(b.Index)
+	return out
+}
